@@ -259,6 +259,16 @@ def gen(rnd: random.Random, opts: dict) -> Design:
                 D.sb.append((o, k, False))
     add_module_level_wrappers(D, rnd, opts.get("p_modwrap", 0.25))
     if rnd.random() < opts.get("p_xmod_conflict", 0.1):
+        D.xmod_shared_call = bool(opts.get("xmod_shared_call", False))
+        if len(getattr(D, "fixed_chunks", [])) < 2 and opts.get("xmod_shared_call") and len(D.order) >= 2:
+            # the class needs two elaboratables: split the single one, never between two bodies wrapped into one module-level If/Else
+            keys_ = [b.key for b in D.order]
+            cuts = [i for i in range(1, len(keys_))
+                    if not (keys_[i - 1] in D.modwrap and keys_[i] in D.modwrap and D.modwrap[keys_[i - 1]][0] == D.modwrap[keys_[i]][0])]
+            if cuts:
+                cut = min(cuts, key=lambda i: abs(i - len(keys_) // 2))
+                D.nmod = 2
+                D.fixed_chunks = [keys_[:cut], keys_[cut:]]
         add_cross_module_conflict_pattern(D, rnd)
     if rnd.random() < opts.get("p_same_trans_conflict", 0.0):
         add_same_transaction_conflict_pattern(D, rnd)
